@@ -427,6 +427,11 @@ class Run(OpsMixin, CallsMixin):
         for k, v in self.entry.env.items():
             fr.env[k] = v
         fr.env['result'] = result
+        for cl in contract.of('returns'):
+            if isinstance(result, Const):
+                self.oblige(z3.BoolVal(False), 'post', 'returns-type', None)
+            else:
+                self.oblige(self.type_constraint(result, cl.extra['type']), 'post', 'returns-type', None)
         for cl in contract.of('ensures'):
             g = self.ev_spec(cl.expr)
             self.oblige(g, 'post', cl.tag or ('post@%d' % cl.line), None, cl.props)
